@@ -65,10 +65,25 @@ def gen_workload(tape, tier):
     ncols = tape.choice([4, 3, 6], "bed.ncols")
     n_bins = tape.weighted([(3, 2), (12, 4), (40, 3), (100, 1)], "bed.maxbins")
     n_bins = tape.between(1, n_bins, "bed.nbins")
-    style = tape.choice(["tiled", "random", "mixed"], "bed.style")
+    style = tape.choice(["tiled", "random", "mixed", "grid"], "bed.style")
     sorted_bed = not tape.chance(1, 4, "bed.unsorted")
     rows = []  # (contig_index, start, end, name)
     edges = []
+    if style == "grid":
+        # the same fixed-width windows from 0 on every contig (how whole-genome bins look):
+        # bins on different contigs share their (start, end)
+        width = int(rng.integers(40, 700))
+        per = max(1, -(-n_bins // n_contigs))
+        b = 0
+        for ci in range(n_contigs):
+            for j in range(per):
+                s = j * width
+                if j and s >= contigs[ci][1]:
+                    break
+                rows.append((ci, s, s + width, _bin_name(rng, b)))
+                edges += [(ci, s), (ci, s + width)]
+                b += 1
+        n_bins = 0
     for b in range(n_bins):
         ci = int(rng.integers(0, n_contigs))
         clen = contigs[ci][1]
